@@ -629,9 +629,19 @@ class BuiltinMixin:
             return self.split_ws(recv, maxsplit, st, node)
         if sep.const is None or len(sep.const.v) != 1:
             raise EngineError("split with non-constant / multi-char separator")
-        if maxsplit is None or maxsplit.const is None or maxsplit.const.v != 1:
-            raise EngineError("split(sep) is only modelled for maxsplit=1")
         c = ord(sep.const.v) if isinstance(sep.const.v, str) else sep.const.v[0]
+        if maxsplit is None:
+            # s.split(c) without a limit: a function of the string; what is known is the number of pieces - at least one, two or
+            # more exactly when the separator occurs - and that a string without the separator is its only piece
+            f = z3.Function(f"spec.SplitOn_{c}", sym.IntSeq, z3.SeqSort(sym.IntSeq))
+            r = f(recv.z)
+            has = z3.Contains(recv.z, z3.Unit(z3.IntVal(c)))
+            st.assume(z3.Length(r) >= 1)
+            st.assume((z3.Length(r) >= 2) == has)
+            st.assume(z3.Implies(z3.Not(has), r == z3.Unit(recv.z)))
+            return SV(TList(recv.t), r)
+        if maxsplit.const is None or maxsplit.const.v != 1:
+            raise EngineError("split(sep, maxsplit) is only modelled for maxsplit=1")
         s = recv.z
         n = z3.Length(s)
         p = z3.IndexOf(s, z3.Unit(z3.IntVal(c)), z3.IntVal(0))
